@@ -469,6 +469,30 @@ pub fn run_group(cd: &CaseDir, opts: &GOpts, roots: &[OsString], format: &str, e
     GroupRun { out, report, cmdline }
 }
 
+/// Same as `run_group`, but the input paths are fed through `--stdin` (one per line) instead of arguments.
+pub fn run_group_stdin(cd: &CaseDir, opts: &GOpts, roots: &[OsString], format: &str, extra: &[OsString]) -> GroupRun {
+    let mut r = Run::fclones(cd).arg("group").args(opts.args()).args(extra).arg("--stdin");
+    if format != "default" {
+        r = r.arg("-f").arg(format);
+    }
+    if let Some(d) = opts.disk_env() {
+        r = r.env("FCLONES_VERIF_DISK_KIND", d);
+    }
+    let input: Vec<u8> = roots.iter().flat_map(|x| [crate::run::os_bytes(x), b"\n".to_vec()].concat()).collect();
+    let cmdline = format!("printf '%s\\n' {} | {}", roots.iter().map(|x| x.to_string_lossy().to_string()).collect::<Vec<_>>().join(" "), r.cmdline());
+    let out = r.stdin(input).run();
+    let report = if out.ok() {
+        match format {
+            "json" => parse_json(&out.stdout),
+            "default" => parse_text(&out.stdout),
+            _ => Err("format not parsed here".into()),
+        }
+    } else {
+        Err(format!("exit {:?}", out.code))
+    };
+    GroupRun { out, report, cmdline }
+}
+
 pub fn root_args(n: usize) -> Vec<OsString> {
     (0..n.max(1)).map(|i| OsString::from(ROOT_NAMES[i % ROOT_NAMES.len()])).collect()
 }
